@@ -112,16 +112,26 @@ def fail(kind, msg, xml=None, extra=None):
 from kskm.common.config_misc import RequestPolicy
 from kskm.signer.policy import check_last_skr_and_new_skr, check_publish_safety, check_retire_safety
 PREV_RESP = [None]
+ODD_ID_CHARS = ["\u2028", "\u2029", "\u0085", "\u00e9", "\u4e2d", " ", "\u00a0", "\u200b", "\u2028\u2029", ".", "\ufeff", "\U0001f511"]
 for i in range(30 * SCALE):
     nb = 1 + i % 9
     zsl = [[R.choice(ZS)] + ([R.choice(ZS[:4])] if R.random() < 0.4 else []) for _ in range(nb)]
     zsl = [list({k["pub"]: k for k in ks}.values()) for ks in zsl]
     if i % 6 == 2:
         zsl[R.randrange(nb)] = list(ZTWIN) + ([R.choice(ZS[:4])] if R.random() < 0.5 else [])      # a roll between two keys whose tags collide
+    if i % 4 == 3:
+        # identifiers are opaque text copied from the KSR: letters of any script, inner blanks, the Unicode line and paragraph separators and NEL are all legal XML characters
+        odd = R.choice(ODD_ID_CHARS)
+        zsl = [[dict(k, id=k["id"][:4] + odd + k["id"][4:]) for k in ks] for ks in zsl]
     rq = skrgen.honest_request(f"{R.randrange(16**8):08x}-{R.randrange(16**4):04x}", NOW + D(days=R.randrange(0, 50), seconds=R.randrange(86400)), nb, zsl,
                                ksrxml.default_zsk_policy(**{k: rand_dur() for k in ("publish_safety", "retire_safety", "max_validity", "min_validity", "max_overlap", "min_overlap")},
                                                          algs=[("RSA", 8, 1024, 65537)] + ([("RSA", 10, 1024, 3)] if R.random() < 0.5 else [])), sign=False)
     rq["serial"] = R.choice([0, 1, 7, 10**9, R.randrange(10**6)])
+    if i % 4 in (2, 3):
+        odd = R.choice(ODD_ID_CHARS)
+        rq["bundles"] = [dict(b, id=f"b{j}{odd}x-{R.randrange(10**6)}") for j, b in enumerate(rq["bundles"])]
+        if i % 8 == 2:
+            rq["id"] = rq["id"][:5] + odd + rq["id"][5:]
     schema = {}
     for j in range(1, nb + 1):
         mode = R.randrange(5)
